@@ -421,7 +421,7 @@ class Shape(Coordinate):
             # plot twice to get that effect.
             polygon_face = patches.Polygon(
                 from_complex_array_to_real_matrix(self.vertices),
-                True,
+                closed=True,
                 facecolor=self.fill_color,
                 edgecolor='none',  # No edges
                 alpha=self.fill_opacity)
@@ -429,7 +429,7 @@ class Shape(Coordinate):
 
         polygon_edges = patches.Polygon(
             from_complex_array_to_real_matrix(self.vertices),
-            True,
+            closed=True,
             facecolor='none',  # No face
             edgecolor="black",
             alpha=1)
